@@ -4,6 +4,11 @@ HERE = os.path.dirname(os.path.abspath(__file__))
 VERIF = os.path.dirname(HERE)
 
 CHECKS = {
+ "C17": dict(
+    text="Lean theorems (Props/C17.lean) over an object/heap machine whose copy operations are defined from a table extracted from the class definitions by clang's AST on every run: (i) every copy operation of GaussianShell carries every attribute and re-points a local centre (decide on the table); (ii) the invariant 'a local-centre shell points at its own storage' holds in every heap reachable by ANY operation sequence; (iii) under it an operation on one object changes nothing observable of another and nothing dangles; (iv) copies show what the source shows; (v) the value classes have no raw-pointer member and every copy op mentions every member. Tied to the code by the translator and by driving real objects (address-level pointer classification, std::vector algorithms, value-class round trips; ASan+UBSan in the thorough tier).",
+    note="Trusted: Lean kernel; translate/copysem.py (pattern walk over clang-14 JSON AST); harness/corr_copy.cpp. std::vector/std::sort are modelled as arbitrary compositions of element copy/assign/destroy; sharing a caller-owned buffer between copies of an external-pointer shell is by design; the integrator's shared_ptr engine is immutable after init().",
+    technique="Lean 4 invariant proof by induction over operation sequences + clang-AST translator + differential correspondence",
+    design="3/C17"),
  "C05": dict(
     text="Lean theorems (Props/C05.lean): for every call history the three result containers refine an abstract machine that only remembers the coordinates of the last compute; hence history independence, documented lengths and idempotent recompute for ALL histories. The container-preparation modes the theorems are about are re-extracted from api.cpp on every run, and the model's formal sums are compared with a real integrator driven through the same histories (exhaustive to length 3 quick / 5 thorough over 6-9 operations, random to length 40).",
     note="Trusted: Lean kernel; translate/apiinit.py; harness/corr_history.cpp and its comparison. Assumes coordinate updates keep the atom partition fixed at init(). The numbers a compute produces are abstracted to 'the fresh result at the current coordinates' (their content is C04).",
